@@ -163,6 +163,17 @@ Theorem C08_tls_rejects :
 Proof. exact tls_rejects_both. Qed.
 Print Assumptions C08_tls_rejects.
 
+(* ... also for an internal route of NGINX Service Mesh: the mesh (SPIFFE) certificate never stands in
+   for an unusable TLS Secret (served_certificate = None means ssl_reject_handshake on, no certificate). *)
+Theorem C08_reject_wins_over_mesh_certificate :
+  forall name ns d wildcard path_of st spiffe s,
+    name <> "" -> secret_state d TyTLS (nskey ns name) = st ->
+    st = SMissing \/ st = SInvalid \/ st = SWrongType ->
+    (vs_ssl_config (Some name) ns d wildcard path_of = Some s \/ ingress_ssl_config (Some name) ns d wildcard path_of = Some s) ->
+    served_certificate spiffe s = None.
+Proof. exact reject_wins_over_mesh_certificate. Qed.
+Print Assumptions C08_reject_wins_over_mesh_certificate.
+
 (* ... and conversely a certificate is configured only for a usable TLS Secret of that name (or
    the wildcard when no name is given): never another certificate. *)
 Theorem C08_certificate_only_when_usable :
